@@ -21,6 +21,97 @@ import os as _os
 _DEBUG = bool(_os.environ.get("VERIF_DEBUG"))
 
 
+
+# ---- second-solver cross-check ------------------------------------------------------------------------------------------
+# every query answered by the z3 Python API in this process is logged as SMT-LIB text; at the end of the job the log is replayed
+# through independent solver binaries (/usr/bin/z3 4.8.12, cvc5 1.0) in one incremental process each; a definite disagreement
+# (sat vs unsat) makes the job inconclusive.
+XLOG = []
+XMAX_BYTES = 400000
+
+
+def _chk(s):
+    res = str(s.check())
+    if len(XLOG) < 4000:
+        try:
+            txt = s.to_smt2()
+        except Exception:  # noqa: BLE001
+            txt = None
+        if txt is not None and len(txt) <= XMAX_BYTES:
+            XLOG.append((txt, res))
+    return res
+
+
+def cross_check(budget_s=30.0, per_query_ms=1000):
+    """returns dict(queries, checked, agreed, second_unknown, disagreements, solvers, seconds)"""
+    import os
+    import shutil
+    import subprocess
+    import tempfile
+
+    out = dict(queries=len(XLOG), checked=0, agreed=0, second_unknown=0, disagreements=[], solvers=[], seconds=0.0)
+    if not XLOG:
+        return out
+    # identical texts are checked once
+    uniq = {}
+    for txt, res in XLOG:
+        uniq.setdefault(txt, res)
+    items = sorted(uniq.items(), key=lambda kv: len(kv[0]))
+    t0 = time.time()
+    d = tempfile.mkdtemp(prefix="xsolver.")
+    try:
+        path = os.path.join(d, "batch.smt2")
+        with open(path, "w") as f:
+            f.write("(set-logic ALL)\n")
+            for txt, _ in items:
+                f.write("(push 1)\n" + txt + "\n(pop 1)\n")
+        cmds = []
+        if os.path.exists("/usr/bin/z3"):
+            cmds.append(("z3-4.8.12", ["/usr/bin/z3", "-t:%d" % per_query_ms, path]))
+        if shutil.which("cvc5"):
+            cmds.append(("cvc5-1.0", [shutil.which("cvc5"), "--incremental", "--tlimit-per=%d" % per_query_ms, path]))
+        for name, cmd in cmds:
+            todo = list(items)
+            used = False
+            while todo:
+                left = budget_s / max(1, len(cmds)) - (time.time() - t0) + (0 if name == cmds[0][0] else budget_s / len(cmds))
+                if left <= 1:
+                    break
+                with open(path, "w") as f:
+                    f.write("(set-logic ALL)\n")
+                    for txt, _ in todo:
+                        f.write("(push 1)\n" + txt + "\n(pop 1)\n")
+                try:
+                    pr = subprocess.run(cmd, capture_output=True, text=True, timeout=left)
+                    so = pr.stdout
+                except subprocess.TimeoutExpired as e:
+                    so = e.stdout.decode() if isinstance(e.stdout, bytes) else (e.stdout or "")
+                lines = [l.strip() for l in so.splitlines() if l.strip() in ("sat", "unsat", "unknown") or l.startswith("(error")]
+                nxt = []
+                for k, ((txt, res), got) in enumerate(zip(todo, lines)):
+                    if got.startswith("(error"):
+                        # this solver cannot read query k (e.g. a construct of the other solver's printer): answers after an error
+                        # line are out of step, so the rest is re-submitted without it
+                        out["rejected"] = out.get("rejected", 0) + 1
+                        nxt = todo[k + 1:]
+                        break
+                    used = True
+                    out["checked"] += 1
+                    if got == "unknown" or res == "unknown":
+                        out["second_unknown"] += 1
+                    elif got == res:
+                        out["agreed"] += 1
+                    else:
+                        out["disagreements"].append("%s answered %s where the z3 API answered %s (query of %d bytes)" % (name, got, res, len(txt)))
+                todo = nxt
+            if used:
+                out["solvers"].append(name)
+    finally:
+        shutil.rmtree(d, ignore_errors=True)
+    out["seconds"] = round(time.time() - t0, 2)
+    return out
+
+
 class Inconclusive(Exception):
     pass
 
@@ -113,9 +204,9 @@ class Z3Ring:
             elif cls == "nonneg":
                 s.add(mv >= 0)
             terms.append(z3.RatVal(c, 1) * mv)
-        tot = z3.Sum(terms) if terms else z3.RealVal(0)
+        tot = (z3.Sum(terms) if len(terms) > 1 else terms[0]) if terms else z3.RealVal(0)
         s.add(tot < 0 if strict_neg else tot <= 0)
-        return str(s.check())
+        return _chk(s)
 
     def constraints(self, vs):
         cs = []
@@ -188,7 +279,7 @@ class Oracle:
             for c in self.zr.constraints(p.variables()):
                 s.add(c)
             s.add(zp <= 0 if want == "pos" else zp < 0)
-            res = str(s.check())
+            res = _chk(s)
         self.queries += 1
         self.time += time.time() - t0
         ok = res == "unsat"
@@ -530,7 +621,7 @@ class Problem:
         if zero:
             # the residual is identically zero: the query is  constraints /\ 0 != 0
             s.add(z3.RealVal(0) != 0)
-            res = str(s.check())
+            res = _chk(s)
             self.stats["solver_s"] += time.time() - t1
             if res != "unsat":
                 raise Inconclusive("solver answered %s on a zero residual" % res)
@@ -579,7 +670,7 @@ class Problem:
             for zp in dens:
                 s.add(zp != 0)
             s.add(expr != 0)
-            res, mode = str(s.check()), "exact point of the variety"
+            res, mode = _chk(s), "exact point of the variety"
         if res != "sat":
             # relaxed: relation variables (towers of square roots are expensive for nlsat) are fixed to rationals
             # within 1e-9 of their values instead of being tied by the exact relation; the model is then a point
@@ -608,7 +699,7 @@ class Problem:
             for zp in dens:
                 s.add(zp != 0)
             s.add(expr != 0)
-            res, mode = str(s.check()), "point within 1e-8 of the variety (relation variables fixed numerically)"
+            res, mode = _chk(s), "point within 1e-8 of the variety (relation variables fixed numerically)"
         self.stats["solver_s"] += time.time() - t1
         if res == "sat":
             r["verdict"] = "sat"
@@ -626,7 +717,7 @@ class Problem:
             s = z3.SolverFor("QF_NRA")
             a_, x_ = z3.Real("abs!v"), z3.Real("abs!arg")
             s.add(a_ >= 0, a_ * a_ == x_ * x_, a_ < 0)
-            if str(s.check()) != "unsat":
+            if _chk(s) != "unsat":
                 raise Inconclusive("abs axioms")
             r["verdict"] = "unsat"
             return
@@ -638,7 +729,7 @@ class Problem:
         if fa.is_zero():
             if want == "nonneg":
                 s.add(z3.RealVal(0) < 0)
-                res = str(s.check())
+                res = _chk(s)
                 r["verdict"] = "unsat"
                 return
         dvars = set()
@@ -665,7 +756,7 @@ class Problem:
                 den = den * zp
         expr = num * den  # same sign as num/den
         s.add(expr < 0 if want == "nonneg" else expr <= 0)
-        res = str(s.check())
+        res = _chk(s)
         self.stats["solver_s"] += time.time() - t1
         if res == "unsat":
             r["verdict"] = "unsat"
